@@ -140,7 +140,29 @@ def build_action(p_scope_of, env, spec):
             a.add_condition(StartTiming(), build_exp(env, sc, pre))
     for eff in spec.get("effs", []):
         apply_effect(env, sc, a, eff, None if spec["kind"] == "inst" else build_timing(eff["t"], True))
+    for ce in spec.get("ceffs", []):
+        apply_cont_effect(env, sc, a, ce)
     return a
+
+
+def apply_cont_effect(env, sc, a, ce):
+    """a.add_increase_continuous_effect / add_decrease_continuous_effect with freshly built arguments"""
+    meth = a.add_increase_continuous_effect if ce["k"] == "inc" else a.add_decrease_continuous_effect
+    meth(build_interval(ce["iv"], True), build_exp(env, sc, ce["fl"]), build_exp(env, sc, ce["rhs"]))
+
+
+def action_interval_spec(iv):
+    """spec of an interval made of start/end timings of the enclosing action, None when outside the edit language"""
+    def ts(t):
+        if t.is_global():
+            return None
+        if t.is_from_start():
+            return ["start", str(Fraction(t.delay))]
+        return ["end", str(Fraction(t.delay))]
+    lo, up_ = ts(iv.lower), ts(iv.upper)
+    if lo is None or up_ is None:
+        return None
+    return ["iv", lo, up_, iv.is_left_open(), iv.is_right_open()]
 
 
 def build_metric(p, env, sc, m):
@@ -204,6 +226,9 @@ def _apply(p, s):
         sc = problem_scope(p, a)
         timed = None if isinstance(a, InstantaneousAction) else build_timing(s["eff"]["t"], True)
         apply_effect(env, sc, a, s["eff"], timed)
+    elif op == "act_ceff":
+        a = p.action(s["action"])
+        apply_cont_effect(env, problem_scope(p, a), a, s["ce"])
     elif op == "time_model":
         if "epsilon" in s:
             p.epsilon = None if s["epsilon"] is None else Fraction(s["epsilon"])
@@ -422,6 +447,27 @@ class Gen:
             eff["t"] = [self.rng.choice(["start", "end"]), "0"]
         return eff
 
+    def cont_effect(self, fl, objs, params, existing=()):
+        """a continuous effect spec; half of the time on an interval the action ALREADY has (so that the edit lands in
+        a list that existed when the problem was cloned)"""
+        g, f = self.fexp(fl, objs, params, lambda t: t.is_real_type())
+        wrong = False
+        if g is None or self.rng.random() < 0.08:
+            g2, f2 = self.fexp(fl, objs, params, lambda t: t.is_int_type())     # rejected: not a real fluent
+            if g2 is not None:
+                g, f, wrong = g2, f2, True
+        if g is None:
+            return None
+        existing = [x for x in existing if x is not None]
+        if existing and self.rng.random() < 0.6:
+            iv = self.rng.choice(existing)
+        else:
+            iv = self.rng.choice([["iv", ["start", "0"], ["end", "0"], False, False],
+                                  ["iv", ["start", "0"], ["end", "0"], True, True],
+                                  ["iv", ["start", "1"], ["end", "0"], False, True]])
+        rhs = ["int", self.rng.randint(1, 3)] if self.rng.random() < 0.7 else ["real", "1/2"]
+        return {"k": self.rng.choice(["inc", "dec"]), "iv": iv, "fl": g, "rhs": rhs}
+
     def action_spec(self, fl, uts, objs, name):
         kind = "inst" if self.rng.random() < 0.7 else "dur"
         params = []
@@ -440,6 +486,12 @@ class Gen:
             if e is not None and repr(e["fl"]) not in seen:
                 seen.add(repr(e["fl"]))
                 spec["effs"].append(e)
+        if kind == "dur" and self.rng.random() < 0.5:
+            spec["ceffs"] = []
+            for _ in range(self.rng.randint(1, 2)):
+                ce = self.cont_effect(fl, objs, ptypes, [c["iv"] for c in spec["ceffs"]])
+                if ce is not None and ce["fl"][1] in [f.name for f in fl if f.type.is_real_type()]:
+                    spec["ceffs"].append(ce)
         return spec
 
     # ---- one edit for a Problem-family problem
@@ -448,7 +500,9 @@ class Gen:
         fl, uts, objs = self.inv(p)
         used = self.names_in_use(p)
         ops = ["add_fluent", "add_object", "add_action", "add_goal", "timed_effect", "timed_effect", "timed_goal",
-               "traj", "metric", "set_init", "act_eff", "act_eff", "time_model"]
+               "traj", "metric", "set_init", "act_eff", "act_eff", "act_ceff", "time_model"]
+        if any(isinstance(a, DurativeAction) and a.continuous_effects for a in getattr(p, "actions", [])):
+            ops += ["act_ceff", "act_ceff"]
         for _ in range(20):
             op = rng.choice(ops)
             s = self._edit(op, p, fl, uts, objs, used)
@@ -563,6 +617,17 @@ class Gen:
             if eff is None:
                 return None
             return {"op": op, "action": a.name, "eff": eff}
+        if op == "act_ceff":
+            acts = [a for a in p.actions if isinstance(a, DurativeAction)]
+            if not acts:
+                return None
+            withc = [a for a in acts if a.continuous_effects]
+            a = rng.choice(withc) if withc and rng.random() < 0.7 else rng.choice(acts)
+            ce = self.cont_effect(fl, objs, [(q.name, q.type) for q in a.parameters],
+                                  [action_interval_spec(i) for i in a.continuous_effects])
+            if ce is None:
+                return None
+            return {"op": op, "action": a.name, "ce": ce}
         if op == "time_model":
             r = rng.random()
             if r < 0.4:
